@@ -4,7 +4,7 @@
 use crate::harness::{Outcome, Prop, Tier};
 use crate::run::{fnv_str, guarded, parse_rrss, Caught};
 use crate::walk::{name_text, Ev, Walker};
-use engine_core::ast::Program;
+use engine_core::ast::{num, say, simple, var, Program, Stmt};
 use engine_core::gen::syntax::{SynCfg, SynGen};
 use engine_core::render::render_canonical;
 use engine_core::tape::Tape;
@@ -244,7 +244,7 @@ impl Prop for C16 {
         "C16"
     }
     fn rule(&self) -> String {
-        "trees: rrss syntax trees obtained by parsing grammar-generated programs (every node type in every position: else blocks, mutation destination and parameter, function parameters, list tails, nested subscripts, \
+        "trees: rrss syntax trees obtained by parsing grammar-generated programs (incl. operator chains of 17-40 links, lists of up to 13 operands, 3% programs with 40-140 empty blocks and 3% with blocks nested 50-100 deep; every node type in every position: else blocks, mutation destination and parameter, function parameters, list tails, nested subscripts, \
          poetic elements, calls, roll-expressions) x every choice of the failing callback (all indices up to 40 events, 40 spread indices beyond; all in the thorough tier). Two recording visitors against the public \
          traits driven by ExprVisitorRunner: A overrides only leaf callbacks, B also the dispatching mid-level callbacks (expression, primary, identifier, variable name, lhs, rhs kinds). \
          non-trivial = >= 5 leaf events; distinct by tree"
@@ -263,7 +263,40 @@ impl Prop for C16 {
         t.pick(80_000, 600_000)
     }
     fn generate(&self, t: &mut Tape) -> Case {
-        Case { prog: SynGen::new(t, SynCfg::default()).program() }
+        match t.weighted(&[94, 3, 3]) {
+            1 => {
+                // 40-140 empty blocks (loops, branches, else branches, function bodies) before ordinary statements
+                let mut stmts: Vec<Stmt> = vec![];
+                let n = 40 + t.pick(101);
+                let x = simple("x");
+                for i in 0..n {
+                    stmts.push(match (i + t.pick(2)) % 5 {
+                        0 => Stmt::While { cond: var(&x), body: vec![] },
+                        1 => Stmt::If { cond: var(&x), then: vec![], els: None },
+                        2 => Stmt::If { cond: var(&x), then: vec![], els: Some(vec![]) },
+                        3 => Stmt::Until { cond: var(&x), body: vec![] },
+                        _ => Stmt::Function { name: simple(&format!("fn{}", ["a", "b", "c", "d"][i % 4])), params: vec![simple("p")], body: vec![] },
+                    });
+                }
+                let mut g = SynGen::new(t, SynCfg::default());
+                stmts.push(Stmt::If { cond: var(&x), then: g.block(1, false), els: Some(g.block(1, false)) });
+                stmts.extend(g.block(2, false));
+                Case { prog: Program::single(stmts) }
+            }
+            2 => {
+                // 50-100 levels of nested blocks with statements on the way in and on the way out
+                let depth = 50 + t.pick(51);
+                let x = simple("x");
+                let mut inner: Vec<Stmt> = SynGen::new(t, SynCfg::default()).block(1, false);
+                for i in 0..depth {
+                    let mut body = vec![say(num(i as f64))];
+                    body.extend(inner);
+                    inner = vec![if i % 3 == 0 { Stmt::While { cond: var(&x), body } } else { Stmt::If { cond: var(&x), then: body, els: None } }, say(var(&x))];
+                }
+                Case { prog: Program::single(inner) }
+            }
+            _ => Case { prog: SynGen::new(t, SynCfg::default()).program() },
+        }
     }
     fn check(&self, c: &Case) -> Outcome {
         let src = render_canonical(&c.prog);
